@@ -14,7 +14,7 @@ LEVEL = 'fault_enumeration'
 RULE = ('corpus of (program, query, pre-existing bindings): A body trees with <= N operators in the C05 context; B '
         'single-clause predicates over all head-argument shapes x query shapes; C the meta-call programs of C09 (once, '
         'findall, \\+, call/N); D bare unify(t1,t2) over a term universe; E clauses that assert/retract (fresh engine per '
-        'run); F programs whose fact predicates are Python generators; H dynamic facts containing variables used by clauses whose later goals bind them in several ways; corpus A also in a process where every logger is at DEBUG and a handler keeps the log records in memory. For each: a fault-free run counts the answers n, '
+        'run); F programs whose fact predicates are Python predicates (returning generators, and returning cursor objects - iterators with a close() that the application keeps referenced), closed / dropped after every number of answers and with an exception at every event; H dynamic facts containing variables used by clauses whose later goals bind them in several ways; corpus A also in a process where every logger is at DEBUG and a handler keeps the log records in memory. For each: a fault-free run counts the answers n, '
         'then one run per ending: exhaustion, and for every k in 0..n {close() after the k-th answer, dropping the last '
         'reference, throw() by the consumer}; for F additionally one run per event j at which a Python predicate raises. '
         'After every ending EVERY live engine variable (weak set hook) must be in the binding state it had before the '
@@ -483,15 +483,16 @@ def run_python_faults(acc, index, t):
     if st != 'complete':
         return
 
-    def run(fire):
+    def run(fire, style='inferred', stop_after=None, ending=None):
         yp = impl.YP()
         rest = [c for key, cl in c20.PROLOG.items() if key not in used for c in cl]
         if rest:
             yp.load_script_from_string(compile_cached(show_program(rest)), fn=impl.SCRIPT_FN)
         yp.load_script_from_string(pytext, fn=impl.SCRIPT_FN)
         events = {'count': 0, 'fire': fire, 'exc': None, 'args': []}
+        del c20.OPEN_CURSORS[:]
         for key in used:
-            fn, ar = c20.make_py(yp, key, 'inferred', False, events)
+            fn, ar = c20.make_py(yp, key, style, False, events)
             yp.register_function(key[0], fn)
         vm = {}
         args = [impl.to_engine(yp, x, vm) for x in goal[2]]
@@ -501,14 +502,44 @@ def run_python_faults(acc, index, t):
         caught = None
         q = yp.query(goal[1], args)
         try:
-            for _ in q:
-                seen.append(impl.observe(ob))
-                if len(seen) > len(exp) + 1:
-                    break
+            if stop_after == 0:
+                pass
+            else:
+                for _ in q:
+                    seen.append(impl.observe(ob))
+                    if stop_after is not None and len(seen) >= stop_after:
+                        break
+                    if len(seen) > len(exp) + 1:
+                        break
         except c20.Injected as e:
             caught = e
+        if ending == 'close':
+            q.close()
         q = None
         return events, seen, caught, leftover(snap)
+    # abandonment: close / drop after every number of answers, the Python predicates returning
+    # generators or cursor objects (iterators with a close() that the application keeps referenced)
+    for style in ('inferred', 'inferred-cursor'):
+        for kk in range(0, len(exp) + 1):
+            for ending in ('close', 'drop'):
+                acc.n['evaluations'] += 1
+                acc.n['validated'] += 1
+                try:
+                    ev, seen, caught, lo = run(None, style, kk, ending)
+                except Exception as e:  # noqa: BLE001
+                    acc.violation('python-predicates:raises:' + impl.exc_sig(e), index + (style, kk, ending), {'tree': bodies.show_tree(t), 'fault': 0},
+                                  'program (fact predicates %s are Python predicates, %s):\n%squery %s raised %r' % ([list(u) for u in used], style, text, show_term(goal), e),
+                                  key='%s|%s|raises' % (bodies.show_tree(t), style))
+                    continue
+                if lo or seen != exp[:len(seen)]:
+                    acc.violation('binding-left-behind:python-predicate:' + ending if lo else 'python-predicates:answers-differ', index + (style, kk, ending), {'tree': bodies.show_tree(t), 'fault': 0},
+                                  'program (fact predicates %s are Python predicates that return %s):\n%squery %s %s after %d answer(s): %s' % (
+                                      [list(u) for u in used], 'a cursor object (iterator with close(), also referenced by the application)' if style == 'inferred-cursor' else 'a generator',
+                                      text, show_term(goal), {'close': 'closed', 'drop': 'dropped'}[ending], kk, lo or 'answers %s, expected a prefix of %s' % (show_answers(seen), show_answers(exp))),
+                                  key='%s|%s|%d|%s' % (bodies.show_tree(t), style, kk, ending))
+                    continue
+                acc.n['transitions'] += len(seen) + 1
+                acc.outcome((tuple(seen), 'python-' + ending))
     events, seen, caught, lo = run(None)
     m = events['count']
     for j in range(1, m + 1):
